@@ -7,7 +7,7 @@ from vlib.sim import new_loop, SimTransport, generic_dev, pick, conc, concb, fki
 
 from rsocket.error_codes import ErrorCode
 from rsocket.exceptions import RSocketProtocolError
-from rsocket.frame import (PayloadFrame, ErrorFrame, CancelFrame, RequestNFrame, is_fragmentable_frame)
+from rsocket.frame import (KeepAliveFrame, PayloadFrame, ErrorFrame, CancelFrame, RequestNFrame, is_fragmentable_frame)
 from rsocket.frame_builders import to_cancel_frame, to_request_n_frame
 from rsocket.frame_fragment_cache import FrameFragmentCache
 from rsocket.payload import Payload
@@ -17,7 +17,8 @@ ALLOWED = allowed('C05')
 LENS = (1, 40, 100, 150, 210)            # 1, 1, 2, 3, 4 fragments at fragment size 64 (empty payloads = "no element", excluded)
 S1 = part('s1', None)                    # partition: stream selector and variant of the first source
 V1 = part('v1', None)
-THIRD = part('third', 0)                 # 0 none, 1 a 2-fragment payload on stream 3, 2 an unfragmented COMPLETE on stream 1
+THIRD = part('third', 0)                 # 0 none, 1 a 2-fragment payload on stream 3, 2 an unfragmented COMPLETE on stream 1,
+                                         # 3 an inbound respond-flagged KEEPALIVE (its echo is queued on stream 0 while the sender is busy)
 MOMENTS = part('moments', 3)
 LENHDR = part('lenhdr', False)
 # variants: 0-4 payload of LENS[i]; 5-9 payload+complete of LENS[i]; 10 complete; 11 error (application exception);
@@ -69,7 +70,7 @@ def _desc(f):
 def c_wire_order(s1: bool, v1: int, m1: int, s2: bool, v2: int, m2: int, m3: int) -> str:
     """
     Two free sources (stream 1 or 3; payload / payload+complete of 0..4 fragments, complete, error (application or protocol
-    error through send_error), cancel, request-n) plus an optional third, each queued through the socket API before the sender starts or after the
+    error through send_error), cancel, request-n) plus an optional third (or an inbound respond-flagged KEEPALIVE whose echo joins the queue), each queued through the socket API before the sender starts or after the
     j-th frame has been handed to a transport whose send blocks until released.  Emitted sequence: per stream in
     queue order, fragments of a frame contiguous within their stream, receiver-side reassembly gives back each
     original payload.
@@ -91,17 +92,26 @@ def c_wire_order(s1: bool, v1: int, m1: int, s2: bool, v2: int, m2: int, m3: int
         plan.append((m3, 3, 2, 2))
     elif THIRD == 2:
         plan.append((m3, 1, 10, 2))
+    elif THIRD == 3:
+        plan.append((m3, 0, -1, 2))
     loop = new_loop()
     with loop:
         t = SimTransport(loop, length_header=LENHDR, block_sends=True)
         s = RSocketServer(t, fragment_size_bytes=64)
         queued = {1: [], 3: []}
+        keepalives = 0
         # step j = "after the j-th frame has been handed to the (blocking) transport"; each step releases at most
         # one pending send, so sources queued at step j see exactly j frames emitted before them (or an idle sender)
         for step in range(0, 40):
             for (m, sid, v, tag) in plan:
                 if m == step:
-                    queued[sid].append(_queue(s, sid, v, tag))
+                    if v == -1:
+                        ka = KeepAliveFrame(b'ka')
+                        ka.flags_respond = True
+                        t.feed_wire(ka)
+                        keepalives += 1
+                    else:
+                        queued[sid].append(_queue(s, sid, v, tag))
             loop.run_ready()
             pending = t.gate is not None and not t.gate.done()
             if pending:
@@ -115,8 +125,12 @@ def c_wire_order(s1: bool, v1: int, m1: int, s2: bool, v2: int, m2: int, m3: int
         cache = FrameFragmentCache()
         got = {1: [], 3: []}
         open_frag = {1: False, 3: False}
+        echoes = 0
         for f in frames:
             sid = f.stream_id
+            if sid == 0 and isinstance(f, KeepAliveFrame) and not f.flags_respond:
+                echoes += 1
+                continue
             if sid not in got:
                 devs.append('frame-on-unexpected-stream')
                 continue
@@ -140,6 +154,8 @@ def c_wire_order(s1: bool, v1: int, m1: int, s2: bool, v2: int, m2: int, m3: int
                     devs.append('per-stream-order-differs-from-queue-order')
                 else:
                     devs.append('frames-merged-truncated-or-lost-at-receiver')
+        if echoes != keepalives:
+            devs.append('KEEPALIVE-answered-%d-times' % echoes)
         if len(cache._frames_by_stream_id) != 0:
             devs.append('receiver-left-with-partial-frame')
         stats.note(len(frames) > total, {'frames': len(frames), 'sources': total, 'third': THIRD})
